@@ -26,22 +26,22 @@ CHECKS = {
  'C04': dict(technique='differential runtime check against an independent evaluator; exhaustive enumeration of every k-card subset in the thorough tier (order-isomorphism of rank classes + per-hand class membership + operator and rejection tiers)',
              text='Thorough tier enumerates the complete finite input space (every 5-card subset of each deck, every 1-4 card badugi subset) and the class table decides all pairs at once; quick tier is a seeded 1-in-10 stride plus all small spaces. Exploration-level claim: agreement with our reference evaluator on everything enumerated.',
              note='Trusted base: the ~100-line reference evaluator in vflib/ref/handrank.py encodes the rules of the statement.', ref='DESIGN.md §2 C04'),
- 'C05': dict(technique='differential runtime check of from_game/from_game_or_none/get_hand/get_up_hand against brute force under each composition rule',
+ 'C05': dict(technique='differential runtime check of from_game/from_game_or_none/get_hand/get_up_hand against brute force under each composition rule, incl. re-split and sibling-class sequences (history independence)',
              text='Held on >10^5 generated (hole, board) inputs per quick run (biased towards pairs, flushes, lows, no-low boards; several argument forms incl. one-shot iterators) and on sampled played states.',
              note='Strength from the C04 reference evaluator; Greek hold\'em with exactly two hole cards.', ref='DESIGN.md §2 C05'),
- 'C09': dict(technique='twin run: automated execution vs manual re-execution of its log with default arguments on the same keyed deck, compared record by record and state by state',
+ 'C09': dict(technique='twin run: automated execution vs manual re-execution of its log with default arguments on the same keyed deck, compared record by record and state by state; logged non-automated operations must equal the client calls; read-only Observer queries interleaved',
              text='Held on the generated twin pairs (quick: random subsets; thorough: all 2048 subsets round robin): every operation record, every decision-point state and the final state are equal.',
              note='Deterministic keyed shuffle installed by the harness.', ref='DESIGN.md §2 C09'),
  'C10': dict(technique='online trace checker per street instance derived from the Street tuple (burn/hole/board/draw bookkeeping, default dealee order, no actor before dealing completes, fallback)',
              text='Held on the generated executions: every dealing operation of tens of thousands of streets agrees with what the street definition prescribes for the players live at street start.',
              note='Default dealee in draw rounds: first player still owed cards.', ref='DESIGN.md §2 C10'),
- 'C12': dict(technique='twin run (automatic show/muck/kill vs everybody tables) + reference floor shares with every hand tabled + direct check that no winning hand is mucked or killed',
+ 'C12': dict(technique='twin run (automatic show/muck/kill vs everybody tables) + reference floor shares with every hand tabled + direct check that no winning hand is mucked or killed; read-only Observer queries interleaved with run A',
              text='Held on the generated showdowns (side pots, ties, hi-lo, multi-board, run-outs): payoffs equal the everybody-tables twin, every winner was shown in full, tournament show constraints probed at every showdown decision.',
              note='Hand strength from the engine evaluator (C04/C05); floor-share oracle only without rake.', ref='DESIGN.md §2 C12'),
  'C14': dict(technique='trace + terminal-structure monitor for run-out selection, consensus rule and board structure',
              text='Held on the generated all-in hands: who is offered the selection and when, the agreed count, b*r complete boards sharing exactly the pre-all-in cards, operation counts after the all-in, even split of pots over boards.',
              note='Run-out counts limited to what the deck can serve.', ref='DESIGN.md §2 C14'),
- 'C15': dict(technique='replay of the reported log on a fresh un-automated state, double execution, and deepcopy divergence with identity scan of mutable containers',
+ 'C15': dict(technique='replay of the reported log on a fresh un-automated state, double execution (observed vs unobserved), deepcopy divergence with identity scan of mutable containers at call-count and phase-targeted copy points, and a record-vs-state-delta monitor at the State._update hook',
              text='Held on the generated histories: log replay reproduces every record and all state fields; re-execution is identical; copies share no container, do not change with the original, respond identically, and divergent continuations equal fresh replays.',
              note='Equality over all dataclass fields except automations and the divmod/rake callables.', ref='DESIGN.md §2 C15'),
  'C08': dict(technique='probe battery at sampled reachable states: can_x / verify_x / x on a deep copy for hostile argument sets, with a deep state fingerprint before and after every call',
@@ -56,7 +56,7 @@ CHECKS = {
  'C11': dict(technique='specification table compared with every created state (static, complete per run) + dynamic monitors on playouts (offered raise intervals per structure, cap, hole card facings, low halves)',
              text='The static comparison covers all 12 classes and 11 variant codes completely on every run; the dynamic monitors held on the generated hands of every variant.',
              note='Trusted base: the SPEC table in vflib/monitors/c11.py states what the game names mean.', ref='DESIGN.md §2 C11'),
- 'C16': dict(technique='round-trip runtime check (write, read, write again, replay) with a counting wrapper around parse_action to detect silent truncation on corrupted histories',
+ 'C16': dict(technique='round-trip runtime check (write, read, write again, replay incl. commentary sequence) with a counting wrapper around parse_action to detect silent truncation on corrupted histories; anonymised (unknown-card) hands',
              text='Held on the generated histories of all 11 variants (int and Decimal chips, terminal and partial, commentary, optional and user fields): field and text equality, replay equality of player-visible operations and stacks, unknown-hole-card replays, and raise-or-apply-everything on corruptions.',
              note='Single run-out, one board, no rake; strings TOML literals cannot carry are excluded.', ref='DESIGN.md §2 C16'),
  'C17': dict(technique='independent renderer of both protocols from the operation log compared with the library output for every viewer seat + loop closure through the protocol parser',
